@@ -193,6 +193,12 @@ StepOp(m0, o) ==
                ELSE IF o.name = "GetRules" THEN JudgeGetRules(o)
                ELSE IF o.name = "DeleteRules" THEN JudgeDeleteRules(o)
                ELSE VerdictFlags(o.name, AckOf(PlanAt(o.plan, 1), 1).v, o)
+        \* C08, last clause: a command that finds an unconsumed NoWait acknowledgement ahead of its own reply has met
+        \* a reply with another request's sequence number - whatever it does with it, it may not report success
+        ackAhead == ~m.desync /\ Len(m.pend) > 0 /\ \E i \in 1..Len(m.mwire) : m.mwire[i].k = "msg" /\ m.mwire[i].rel = "own"
+        f08x == IF IsWaitCmd(o) /\ ackAhead /\ o.ret = "nil"
+                THEN << Flag("C08", o.name \o " reported success although the reply it met first carried another request's sequence number") >>
+                ELSE << >>
         \* C16: request bytes
         f16 == IF o.name \in SetterNames THEN JudgeSetterWire(o)
                ELSE IF o.name = "GetStatus" THEN JudgeGetStatusWire(o)
@@ -258,7 +264,7 @@ StepOp(m0, o) ==
                    \/ (o.name = "WaitForPendingACKs" /\ o.pops # w.pops)
                    \* the asynchronous API leaves and takes frames outside the request/ACK discipline
                    \/ o.name \in {"GetStatusAsync", "Receive"}
-    IN  [m EXCEPT !.flags = f08 \o f16 \o f17 \o fx,
+    IN  [m EXCEPT !.flags = f08 \o f08x \o f16 \o f17 \o fx,
                   !.mwire = SubSeq(w1, Min2(o.pops, Len(w1)) + 1, Len(w1)),
                   !.pend = newPend,
                   !.desync = @ \/ strange,
